@@ -23,13 +23,13 @@ Proof. exact apart_ok. Qed.
 Print Assumptions C18_handled_apart.
 
 (* what the gate does before LOGIN: any-state commands are answered without touching user data, LOGIN is attempted,
-   LOGOUT/STARTTLS end the connection, everything else is refused with NO *)
+   LOGOUT ends the connection, everything else (STARTTLS too: no TLS configuration) is refused with NO *)
 Theorem C18_gate_before_login : forall c, gate PNotAuth c =
   match c with
   | CCapability | CIDGet | CIDSet | CNoop => DAnyNoUser
   | CLogin => DLoginAttempt
   | CLogout => DLogout
-  | CStartTLS => DDrop
+  | CStartTLS => if starttls_without_tls_answers_no then DRefuse RNo else DDrop
   | _ => DRefuse RNo
   end.
 Proof. exact gate_notauth. Qed.
@@ -42,7 +42,7 @@ Theorem C18_gate_authenticated : forall u c, gate (PAuth u) c =
   match c with
   | CLogin => DRefuse RBad
   | CLogout => DLogout
-  | CStartTLS => DDrop
+  | CStartTLS => if starttls_without_tls_answers_no then DRefuse RNo else DDrop
   | CCheck | CClose | CExpunge | CUIDExpunge | CUnselect | CSearch | CFetch | CStore | CCopy | CMove | CUID => DRefuse RNo
   | _ => DAdmit u None
   end.
@@ -53,7 +53,7 @@ Theorem C18_gate_selected : forall u m ro c, gate (PSel u m ro) c =
   match c with
   | CLogin => DRefuse RBad
   | CLogout => DLogout
-  | CStartTLS => DDrop
+  | CStartTLS => if starttls_without_tls_answers_no then DRefuse RNo else DDrop
   | _ => DAdmit u (Some (m, ro))
   end.
 Proof. exact gate_sel. Qed.
